@@ -271,14 +271,34 @@ func TestVerifC04(t *testing.T) {
 	timeNowFn = func() time.Time { return time.Unix(1700000000, 0) }
 	defer func() { timeNowFn = oldNow }()
 	ctx := context.TODO()
-	n := h.N(1500, 40000)
-	for idx := 0; idx < n; idx++ {
+	n := h.N(5000, 120000)
+	// exhaustive small-scope stream (cases n .. n+nExh-1): two PodGroup gangs (min 1) in one gang group, one pod
+	// each, everything has arrived; then EVERY sequence of exhLen calls out of
+	// {Permit, Unreserve, PostBind, AfterPostFilter, update without node, update with node, delete} x {pod 0, pod 10},
+	// for every (match policy, mode) of exhCfgs.  Prefixes are covered because the oracle runs after every op.
+	exhLen, exhCfgs := 3, [][2]int{{0, 1}, {2, 1}}
+	if h.Tier == "thorough" {
+		exhLen, exhCfgs = 4, [][2]int{{0, 1}, {1, 1}, {2, 1}, {0, 0}, {1, 0}, {2, 0}}
+	}
+	exhPer := 1
+	for i := 0; i < exhLen; i++ {
+		exhPer *= 14
+	}
+	nExh := exhPer * len(exhCfgs)
+	if vEnvInt("VERIF_C04_NOEXH", 0) != 0 {
+		nExh = 0
+	}
+	for idx := 0; idx < n+nExh; idx++ {
 		r := h.Begin(idx)
 		if r == nil {
 			continue
 		}
+		exh := idx >= n
 		// ---------- the case's universe ----------
 		nG := r.Range(1, 3)
+		if exh {
+			nG = 2
+		}
 		// partition of the gangs into gang groups
 		groupOf := make([][]int, nG)
 		switch {
@@ -346,6 +366,15 @@ func TestVerifC04(t *testing.T) {
 			for i := 0; i < k; i++ {
 				pods = append(pods, &c04PodSt{id: g*10 + i, g: g})
 			}
+		}
+		if exh {
+			ec := exhCfgs[(idx-n)/exhPer]
+			for g := 0; g < 2; g++ {
+				groupOf[g], declGroup[g], ways[g] = []int{0, 1}, []int{0, 1}, 0
+				cfgs[g] = c04Cfg{min: 1, pol: ec[0], mode: ec[1], group: []int{0, 1}, grpOK: true}
+			}
+			pods = []*c04PodSt{{id: 0, g: 0}, {id: 10, g: 1}}
+			h.Tag("exhaustive")
 		}
 		h.Tag(fmt.Sprintf("gangs:%d", nG))
 
@@ -751,6 +780,35 @@ func TestVerifC04(t *testing.T) {
 		// ---------- history ----------
 		nOps := r.Range(6, 30)
 		scripted := r.Chance(1, 2) // half of the histories start with "everything arrives, then members are scheduled"
+		if exh {
+			nOps, scripted = 0, false
+			doPGAdd(0, false)
+			doPGAdd(1, false)
+			doPodEvt(pods[0], false, false, false)
+			doPodEvt(pods[1], false, false, false)
+			code := (idx - n) % exhPer
+			for i := 0; i < exhLen; i++ {
+				d := code % 14
+				code /= 14
+				ps := pods[d%2]
+				switch d / 2 {
+				case 0:
+					doPermit(ps)
+				case 1:
+					doUnreserve(ps)
+				case 2:
+					doPostBind(ps)
+				case 3:
+					doPostFilter(ps)
+				case 4:
+					doPodEvt(ps, true, false, false)
+				case 5:
+					doPodEvt(ps, true, true, false)
+				default:
+					doPodDel(ps)
+				}
+			}
+		}
 		if scripted {
 			for g := 0; g < nG; g++ {
 				if ways[g] == 0 {
@@ -866,5 +924,6 @@ func TestVerifC04(t *testing.T) {
 	}
 	h.Close("history of 6-30 (+scripted prefix) informer events and scheduling-cycle calls over 1-3 gangs in 1-3 gang groups, " +
 		"1-4 pods each, 3 match policies x 2 modes (+absent/illegal values), PodGroup / annotation / lightweight-label gangs; " +
-		"non-trivial = at least two members released from Permit or at least one strict-mode group rejection that hit a waiting pod")
+		"non-trivial = at least two members released from Permit or at least one strict-mode group rejection that hit a waiting pod; " +
+		fmt.Sprintf("plus an exhaustive stream: all 14^%d call sequences after a fixed arrival prefix on 2 gangs x 1 pod for %d (policy, mode) pairs", exhLen, len(exhCfgs)))
 }
